@@ -15,7 +15,8 @@ RULE = ("inner_join on generated table pairs, judged by the Lean model Join.run 
         "key vector, float/complex key, mismatched kinds, all-None vs typed, empty key list, unequal key lists, tuple "
         "argument, non-str/Vector element (must be refused, any error class). Inputs are snapshotted before/after every call. "
         "thorough: string-keyed batches re-run in fresh interpreters under PYTHONHASHSEED 0,1,2,4242. "
-        "non-trivial = both sides non-empty, the call returned, and some key matches or repeats")
+        "non-trivial = both sides non-empty, the call returned, and some key matches or repeats"
+        ' Further families (joincommon.extra_cases): key lists in another order than the stored columns / with a column listed twice / mixing names, own vectors and external copies, right key columns stored in another order; one table joined with itself on DIFFERENT key columns; two tables keyed by the same external key vector objects; a join, then columns renamed through a view or rename_column (by the new name, by the old name = refused, names exchanged with a payload column), payload cells edited in place or the key column replaced by attribute assignment, then the judged join; sides and single buckets beyond 1000 rows; wide tables with interleaved key columns; key names that are no identifiers or read alike (NFC/NFD, trailing blank, case); zero-row sides without any column; datetime key columns holding raw dates. quick tier: one string-keyed batch of 24 cases re-run under four hash seeds.')
 ASSUMPTIONS = ["key components are hashable scalars of exactly the ladder types int/str/bool/date/datetime or None; NaN and "
                "unhashable keys are not generated",
                "key validation (_validate_join_keys) is mirrored in the model only to decide whether the join proceeds; the "
@@ -66,7 +67,14 @@ def generate(rng, tier):
     yield from jc.scripted_warm("inner", kinds=("inner",), expects=["many_to_many", "one_to_one"])
     yield from jc.self_joins("inner", kinds=("inner",), expects=["many_to_many", "one_to_many"])
     yield from jc.malformed_stream(rng, ["inner"], 360 if not thorough else 3600, "inner.malformed")
+    # further shapes / states: key-list shapes (permuted, repeated, mixed forms), self-join on different key columns, key vector
+    # objects shared by two tables, renames and payload edits between two joins, >1000 rows, wide tables, non-identifier key names
+    yield from jc.extra_cases(rng, "inner", ["inner"], ["many_to_many", "many_to_many", "one_to_one", "many_to_one"],
+                              scale=1 if not thorough else 10)
     if not thorough:
+        # one small string-keyed batch (all three methods) re-run under four hash seeds also in the quick tier
+        yield {"fam": "inner.hashseed", "kind": "inner", "expect": "many_to_many", "lk": [["a"]], "rk": [["a"]], "v": 0,
+               "hashseed": {"seed": rng.randrange(10 ** 6), "count": 24}}
         yield from _random(rng, 40000)
         return
     # thorough: larger exhaustive scopes, random cases and the hash-seed batches, interleaved
